@@ -170,7 +170,7 @@ for _cls, _dom in FAMILY.items():
 
 # =========================================================================================== Gateway, PathInfo / ERO, MaintenanceInfo
 import datetime as _dt
-from pyvc.spec import values as _values
+from pyvc.spec import values as _values, str_of_int
 from fim.slivers.gateway import Gateway, GatewayException
 from fim.slivers.path_info import PathInfo, ERO, Path, PathRepresentationType
 from fim.slivers.maintenance_mode import MaintenanceInfo, MaintenanceEntry, MaintenanceState, MaintenanceModeException
@@ -397,3 +397,148 @@ for _c in _c16.CONTRACTS:
     if 'C03' in getattr(_c, 'props', ()):
         globals()[_c.__name__] = _c
         CONTRACTS.append(_c)
+
+
+# =========================================================================================== legacy type:value tuples
+import fim.graph.typed_tuples as _tt
+from pyvc.values import is_sym as _is_sym, mk as _mk
+import z3 as _z3
+
+
+def _real_types():
+    out = {}
+    for cls in (_tt.Label, _tt.Capacity, _tt.Location, _tt.AllocationConstraint):
+        probe = object.__new__(cls)
+        cls.__init__.__wrapped__ if False else None
+    for cat, f in (('label', 'label_types.json'), ('cap', 'capacity_types.json'), ('location', 'location_types.json'),
+                   ('constraint', 'constraint_types.json')):
+        out[cat] = _tt.TypeValidator(cat, f).get_types(cat)
+    return out
+
+
+TUPLE_TYPES = _real_types()
+
+
+def _tv_init(I, args, kw):
+    """TypeValidator(cat, file): loads the packaged type list (the real lists are read natively, see TUPLE_TYPES)"""
+    return None
+
+
+def _tv_validate(I, args, kw):
+    _self, cat, atype = args
+    types = TUPLE_TYPES[cat]
+    if atype is None:
+        I.raise_(AssertionError)
+    if isinstance(atype, str):
+        return atype in types
+    if _is_sym(atype) and atype.k == 'str':
+        return _mk(_z3.Or(*[atype.t == _z3.StringVal(t) for t in types]), 'bool')
+    I.raise_(TypeError, 'unhashable / not a string')
+
+
+def _tv_types(I, args, kw):
+    if len(args) < 2:
+        I.raise_(TypeError, "get_types() missing 1 required positional argument: 'cat'")
+    return PList(list(TUPLE_TYPES[args[1]]))
+
+
+TUPLE_SUMMARIES = {'fim.graph.typed_tuples:TypeValidator.__init__': _tv_init,
+                   'fim.graph.typed_tuples:TypeValidator.validate_type': _tv_validate,
+                   'fim.graph.typed_tuples:TypeValidator.get_types': _tv_types}
+
+
+def make_tuple_contracts(cls, cat):
+    class TupleRoundTrip(Contract):
+        """type:value text -> value -> text, through parse_from_string and through the fromstring constructor"""
+        target = 'fim.graph.typed_tuples:TypedTuple.get_as_string'
+        extra_targets = ('fim.graph.typed_tuples:TypedTuple.__init__', 'fim.graph.typed_tuples:TypedTuple.parse_from_string',
+                         f'fim.graph.typed_tuples:{cls.__name__}.__init__')
+        props = ('C03',)
+        summaries = TUPLE_SUMMARIES
+        max_paths = 4000
+
+        def inputs(self, g):
+            return [g.pick(TUPLE_TYPES[cat], 'type'), g.text('v')], {}
+
+        def body(self, h, atype, aval):
+            x = h.call(cls, atype=atype, aval=aval)
+            enc = h.call(cls.get_as_string, x)
+            y = h.call(cls, fromstring=enc)
+            z = h.call(cls, atype=TUPLE_TYPES[cat][0], aval='')
+            h.call(cls.parse_from_string, z, enc)
+            return (enc, fld(y, 'type'), fld(y, 'val'), h.call(cls.get_as_string, y), fld(z, 'type'), fld(z, 'val'),
+                    fld(x, 'type'), fld(x, 'val'))
+
+        ensures = {
+            'rt1.parse_from_string_gives_the_value_back': lambda pre, post: returned(post) and And(
+                eq(post.result[4], pre.args[0]), same(post.result[5], pre.args[1])),
+            'rt1.fromstring_constructor_gives_the_value_back': lambda pre, post: returned(post) and And(
+                eq(post.result[1], pre.args[0]), same(post.result[2], pre.args[1])),
+            'rt2.reencoding_the_decoded_value_gives_the_identical_text': lambda pre, post: returned(post) and same(
+                post.result[3], post.result[0]),
+            'enc.leaves_the_value_untouched': lambda pre, post: returned(post) and And(
+                eq(post.result[6], pre.args[0]), same(post.result[7], pre.args[1])),
+        }
+    TupleRoundTrip.__name__ = f'TupleRoundTrip_{cls.__name__}'
+
+    class TupleUnknownType(Contract):
+        """a type outside the packaged list is refused by the constructor and by parse_from_string (which leaves the value)"""
+        target = 'fim.graph.typed_tuples:TypedTuple.__init__'
+        extra_targets = ('fim.graph.typed_tuples:TypedTuple.parse_from_string',)
+        props = ('C03',)
+        summaries = TUPLE_SUMMARIES
+        max_paths = 4000
+
+        def inputs(self, g):
+            t = g.text('t')
+            g.assume(_z3.Not(_z3.Contains(t.t, _z3.StringVal(':'))))
+            g.assume(_z3.And(*[t.t != _z3.StringVal(x) for x in TUPLE_TYPES[cat]]))
+            return [t, g.text('v')], {}
+
+        def body(self, h, atype, aval):
+            st, _ = h.attempt(cls, atype=atype, aval=aval)
+            z = h.call(cls, atype=TUPLE_TYPES[cat][0], aval='keep')
+            st2, _ = h.attempt(cls.parse_from_string, z, h.op('Add', h.op('Add', atype, ':'), aval))
+            return (st, st2, fld(z, 'type'), fld(z, 'val'))
+
+        ensures = {
+            'type.unknown_type_refused_value_kept': lambda pre, post: returned(post) and post.result[0] == 'exc'
+            and post.result[1] == 'exc' and eq(post.result[2], TUPLE_TYPES[cat][0]) and eq(post.result[3], 'keep'),
+        }
+    TupleUnknownType.__name__ = f'TupleUnknownType_{cls.__name__}'
+    return [TupleRoundTrip, TupleUnknownType]
+
+
+for _cls, _cat in ((_tt.Label, 'label'), (_tt.Capacity, 'cap'), (_tt.Location, 'location'), (_tt.AllocationConstraint, 'constraint')):
+    for _c in make_tuple_contracts(_cls, _cat):
+        globals()[_c.__name__] = _c
+        CONTRACTS.append(_c)
+
+
+class TupleIntValue_Capacity(Contract):
+    """capacity tuples are built with integer values (the module's own documentation); the text form gives a string back"""
+    target = 'fim.graph.typed_tuples:TypedTuple.get_as_string'
+    extra_targets = ('fim.graph.typed_tuples:TypedTuple.__init__',)
+    props = ('C03',)
+    summaries = TUPLE_SUMMARIES
+
+    def inputs(self, g):
+        return [g.pick(TUPLE_TYPES['cap'], 'type'), g.int('n', lo=0)], {}
+
+    def body(self, h, atype, n):
+        x = h.call(_tt.Capacity, atype=atype, aval=n)
+        enc = h.call(_tt.Capacity.get_as_string, x)
+        y = h.call(_tt.Capacity, fromstring=enc)
+        return (enc, fld(y, 'type'), fld(y, 'val'), h.call(_tt.Capacity.get_as_string, y))
+
+    ensures = {
+        'rt1.integer_value_comes_back_equal': lambda pre, post: returned(post) and And(
+            eq(post.result[1], pre.args[0]), same(post.result[2], pre.args[1])),
+        'rt1.integer_value_comes_back_equal_or_known_defect_KF-C03-1': lambda pre, post: returned(post) and And(
+            eq(post.result[1], pre.args[0]), Or(same(post.result[2], pre.args[1]), same(post.result[2], str_of_int(pre.args[1])))),
+        'rt2.reencoding_the_decoded_value_gives_the_identical_text': lambda pre, post: returned(post) and same(
+            post.result[3], post.result[0]),
+    }
+
+
+CONTRACTS.append(TupleIntValue_Capacity)
